@@ -14,7 +14,8 @@ import XzVerif.Model.Ring
   Every branch in which the Go code returns an error or panics is an outcome here (`ErrNoSpace`, distance / length
   out of range, the `panic` of the copy loop), so "never happens" is a theorem (Proofs/LazyDec.lean) and a change of
   the refill threshold or of the ring arithmetic moves the correspondence (per-call results under read schedules).
-  The source delivers the whole input (its fragmentation and failures are C13's and C09's dynamic part).  Core-only.
+  The source delivers the whole input and then either io.EOF or — `srcEnd` — an error of its own (C09); its
+  fragmentation is the subject of Model/Src.lean.  Core-only.
 -/
 namespace LazyDec
 open Lzma Rc Ring
@@ -28,6 +29,7 @@ inductive Err where
   | lenRange          -- writeMatch: length out of range
   | panic             -- a panic of the Go code
   | other (what : String)   -- errors of NewReader
+  | src               -- the error of a failing source, handed on unchanged (C09)
   deriving DecidableEq, Repr, Inhabited
 
 structure LSt where
@@ -40,6 +42,7 @@ structure LSt where
   size : Option Nat             -- decoder.size (none: negative = unknown)
   eos : Bool := false
   eosMarker : Bool := false
+  srcEnd : Bool := false        -- the end of `rd.inp` is the end of a source that FAILS there (not io.EOF)
 
 def LSt.decompressed (l : LSt) : Nat := l.dict.head - l.start
 
@@ -93,7 +96,7 @@ def tail (l : LSt) : DRes :=
   if l.rd.code = 0 then .eof l else
   match readOp l with
   | .op _ l' => .err l' .size
-  | .dry l' => .err l' .unexpectedEOF
+  | .dry l' => .err l' (if l'.srcEnd then .src else .unexpectedEOF)
   | .marker l' => .eof l'
 
 /-- the fill loop of `decompress` -/
@@ -102,7 +105,7 @@ def fill : Nat → LSt → DRes
   | fuel + 1, l =>
     if l.dict.buf.available ≥ 273 then
       match readOp l with
-      | .dry l' => .err { l' with eos := true } .unexpectedEOF
+      | .dry l' => if l'.srcEnd then .err l' .src else .err { l' with eos := true } .unexpectedEOF
       | .marker l' =>
         let l' := { l' with eos := true }
         if l'.rd.code ≠ 0 then .err l' .dataAfterEOS
@@ -152,9 +155,18 @@ def readLoop (len : Nat) : Nat → LSt → ByteArray → LSt × ByteArray × RSt
 def read (l : LSt) (len : Nat) : LSt × ByteArray × RStat :=
   if len = 0 then (l, ByteArray.empty, .ok) else readLoop len (len + 3) l ByteArray.empty
 
-/-- `ReaderConfig{DictCap: cfgCap}.NewReader` on the whole input -/
-def newReader (cfgCap : Nat) (inp : ByteArray) : Except Err LSt :=
-  if inp.size < 13 then .error (if inp.size = 0 then .other "unexpected EOF" else .unexpectedEOF) else
+/-- what `newRangeDecoder` reports when it fails on the bytes `seg` it can see (`srcEnd`: running out of them is the
+    failure of the source, not the end of the data) -/
+def initErr (seg : List Nat) (srcEnd : Bool) : Err :=
+  let endE : Err := if srcEnd then .src else .unexpectedEOF
+  match seg with
+  | [] => endE
+  | b0 :: _ => if b0 ≠ 0 then .other "range decoder init" else if seg.length < 5 then endE else .other "range decoder init"
+
+/-- `ReaderConfig{DictCap: cfgCap}.NewReader` on the whole input; `srcErr`: the source fails (with an error other than
+    io.EOF) where the input ends -/
+def newReaderE (srcErr : Bool) (cfgCap : Nat) (inp : ByteArray) : Except Err LSt :=
+  if inp.size < 13 then .error (if srcErr then .src else if inp.size = 0 then .other "unexpected EOF" else .unexpectedEOF) else
   match Lzma2.propsOfByte (Lzma2.get inp 0) with
   | none => .error (.other "invalid properties code")
   | some p =>
@@ -166,8 +178,11 @@ def newReader (cfgCap : Nat) (inp : ByteArray) : Except Err LSt :=
     let cap := max cfgCap (max dc Lzma1.minDictCap)
     let body := bytesToList inp 13 inp.size
     match Dec.init body with
-    | none => .error (if body.length < 5 then .unexpectedEOF else .other "range decoder init")
-    | some rd => .ok { p := p, tbl := initTable p.lc p.lp, rd := rd, dict := DDict.new cap, size := size }
+    | none => .error (initErr body srcErr)
+    | some rd => .ok { p := p, tbl := initTable p.lc p.lp, rd := rd, dict := DDict.new cap, size := size, srcEnd := srcErr }
+
+/-- the source ends with io.EOF -/
+def newReader (cfgCap : Nat) (inp : ByteArray) : Except Err LSt := newReaderE false cfgCap inp
 
 /-- a schedule of reads: stops at the first call that does not return nil; per call (bytes, status) -/
 def readSeq : LSt → List Nat → List (ByteArray × RStat)
